@@ -196,7 +196,7 @@ def audit_props(prop, cfg):
     # every proof in a Props file must be `exact <lemma>.`
     for m in re.finditer(r"Theorem\s+(\w+)[^.]*?\.\s*Proof\.(.*?)Qed\.", src, re.S):
         body = m.group(2).strip()
-        if not re.fullmatch(r"exact\s+\(?[\w.@ ]+\)?\s*\.", body):
+        if not re.fullmatch(r"exact\s+[^;]+\.", body) or body.count(". ") > 0:
             problems.append(f"theorem {m.group(1)}: proof is not a single `exact`")
     # Print Assumptions on interval-based proofs costs seconds per theorem: cache the compiler output,
     # keyed by the sources of the whole development and the regenerated tables
